@@ -213,6 +213,8 @@ def _execute(case):
                                "check_shape": lib is not None, "shape": [[a + 1, b + 1] for a, b in pairs]})
         else:
             nm = "top%d-%s" % (j, shape if isinstance(shape, str) else "inline")
+            if case.get("same_names"):
+                nm = "clique"          # several topologies may carry the same label (the configuration is positional)
             names.append(nm)
             motifs_rec.append({"orbits": [k + 1 for k in orbits], "names": [nm], "homog": True,
                                "check_shape": lib is not None, "shape": [[a + 1, b + 1] for a, b in pairs]})
